@@ -13,6 +13,7 @@ import (
 	"golang.org/x/tools/go/ssa"
 
 	"gmqttverif/internal/core"
+	"gmqttverif/internal/normalize"
 	"gmqttverif/internal/rules"
 )
 
@@ -26,6 +27,9 @@ func main() {
 	goos := flag.String("goos", "", "analyse the build configuration of this GOOS")
 	tests := flag.Bool("tests", false, "load test files too")
 	corpus := flag.String("corpus", "", "thorough: JSON result of the self-validation corpus and extra configurations to embed in the evidence")
+	dumpFuncs := flag.Bool("dump-funcs", false, "print the function inventory of the repository (the reference of the helper normalisation) and exit")
+	noNorm := flag.Bool("no-normalize", false, "debug: analyse the tree without inlining fresh helpers")
+	showNorm := flag.Bool("show-normalized", false, "debug: print the overlay files produced by the helper normalisation and exit")
 	noEvidence := flag.Bool("no-evidence", false, "do not write evidence / replay files into the verif directory (variant runs)")
 	flag.Parse()
 	seed, _ := strconv.ParseInt(os.Getenv("VERIF_SEED"), 10, 64)
@@ -44,10 +48,53 @@ func main() {
 			*verif = tmp
 		}
 	}
+	if *dumpFuncs {
+		keys, _, err := normalize.Inventory(*repo, lopt.Env)
+		if err != nil {
+			fmt.Printf("CHECKER-ERROR inventory: %v\n", err)
+			os.Exit(2)
+		}
+		fmt.Println(strings.Join(keys, "\n"))
+		return
+	}
+	var norm *normalize.Result
+	if !*noNorm {
+		var nerr error
+		norm, nerr = normalize.Run(*repo, lopt.Env)
+		if nerr != nil {
+			fmt.Printf("NOTE helper normalisation not applied: %v\n", nerr)
+			norm = nil
+		}
+	}
+	if *showNorm {
+		if norm != nil {
+			for f, b := range norm.Overlay {
+				fmt.Printf("==== %s\n%s\n", f, b)
+			}
+			fmt.Printf("inlined: %v\ndropped: %v\nskipped: %v\n", norm.Inlined, norm.Dropped, norm.Skipped)
+		}
+		return
+	}
+	if norm != nil && norm.Overlay != nil {
+		lopt.Overlay = norm.Overlay
+	}
 	prog, err := core.Load(lopt)
+	if err != nil && lopt.Overlay != nil {
+		// the normalised program must type-check; if it does not, the tree is analysed as it is
+		fmt.Printf("NOTE helper normalisation discarded (normalised program does not load: %v)\n", firstLine(err.Error()))
+		lopt.Overlay = nil
+		norm = &normalize.Result{Fresh: norm.Fresh, Skipped: []string{"all: normalised program did not type-check"}}
+		prog, err = core.Load(lopt)
+	}
 	if err != nil {
 		fmt.Printf("CHECKER-ERROR load: %v\n", err)
 		os.Exit(2)
+	}
+	if norm != nil {
+		prog.Normalized = core.Normalization{Fresh: norm.Fresh, Inlined: norm.Inlined, Dropped: norm.Dropped, Skipped: norm.Skipped}
+		for _, l := range norm.Inlined {
+			fmt.Printf("NOTE inlined fresh helper %s\n", l)
+		}
 	}
 	if *dump != "" {
 		i := strings.Index(*dump, ":")
@@ -86,6 +133,13 @@ func main() {
 		}
 		ctx := core.NewCtx(prog, id, *tier, seed, *verif, known)
 		ctx.OnlyKey = *key
+		ctx.Extra("helper_normalisation", map[string]any{
+			"rule":                 "functions absent from the reference inventory are inlined at the source level (overlay only) when that is sound; see internal/normalize",
+			"fresh_functions":      prog.Normalized.Fresh,
+			"inlined_call_sites":   prog.Normalized.Inlined,
+			"dropped_declarations": prog.Normalized.Dropped,
+			"left_alone":           prog.Normalized.Skipped,
+		})
 		if *corpus != "" {
 			ctx.LoadCorpus(*corpus)
 		}
@@ -115,6 +169,15 @@ func runRule(ctx *core.Ctx, fn func(*core.Ctx)) {
 		}
 	}()
 	fn(ctx)
+}
+
+func firstLine(s string) string {
+	if i := strings.Index(s, "\n"); i >= 0 {
+		if j := strings.Index(s[i+1:], "\n"); j >= 0 {
+			return s[:i+1+j]
+		}
+	}
+	return s
 }
 
 func envOr(k, d string) string {
